@@ -186,12 +186,15 @@ class WorstCaseEvaluator(Evaluator):
                 sensitivity.append(abs(individual.costs[0] - child.costs[0]))
             individual.features['sensitivity'] = sum(sensitivity)
 
-            if len(individual.costs) > self.n:
+            if len(individual.costs) >= self.n:
                 individual.costs[-1] = sum(sensitivity)
                 individual.costs_signed[-2] = sum(sensitivity)
             else:
                 individual.costs.append(sum(sensitivity))
                 individual.costs_signed.insert(-1, sum(sensitivity))
+
+        self.individuals = []
+        self.to_evaluate = []
 
 
 class Generator(Operator):
